@@ -12,6 +12,7 @@
   UNIQUE ::= true | false                                what the collection answers to `is_unique()`
   VAL    ::= null | (bool B) | (int TY N) | (f64 BITS xJSONTOK xDISPLAY) | (str xS) | (disp xS) | (dbg xS)
            | (err xTOP xCAUSE…) | (lvl debug|info|warn|error) | (tid N) | (sid N) | (kind span|metric) | (sv T xDISPLAY)
+           | (fx sval|serde FIXTURE xDISPLAY)          FIXTURE: see `fixture?`
            | (arr-i64 (N…) xDISPLAY) | (arr-f64 ((BITS xJSONTOK xDISPLAY)…) xDISPLAY)        N ≤ 6 elements
   T      ::= null | none | unit | (bool B) | (int TY N) | (f64 BITS xJSONTOK xDISPLAY)
            | (f32 BITS32 BITS64 xJSONTOK xDISPLAY64) | (text xS) | (bin xBYTES) | (seq T…) | (map (T T)…)
@@ -84,6 +85,54 @@ partial def tree? : Sexp → Option V
   | .list (.atom "tvar" :: l :: xs) => do pure (V.tvar (← l.str?) (← xs.mapM tree?))
   | _ => none
 
+/-- THE TABLE: image under value_bag/sval of the harness fixtures (harness/hotlp/src/streams/c13/fixtures.rs:
+    types with derived `sval::Value` / `serde::Serialize` impls and std collections). The same image for both
+    capture paths (`from_sval`, `from_serde` through sval_serde); validated by the correspondence. -/
+def fixture? (name : String) (args : List Sexp) : Option V :=
+  let i32? (s : Sexp) : Option Int := do
+    let n ← s.int?
+    if -(2 ^ 31) ≤ n ∧ n < 2 ^ 31 then some n else none
+  match name, args with
+  | "unit-variant", [] => some (.uvar "Unit")
+  | "newtype-variant", [n] => do pure (.nvar "Newtype" (.int (← i32? n)))
+  | "tuple-variant", [n, b] => do pure (.tvar "Tuple" [.int (← i32? n), .bool (← b.bool?)])
+  | "struct-variant", [n, s] => do pure (.svar "Struct" [("a", .int (← i32? n)), ("b", .text (← s.str?))])
+  | "struct", [id, nm, opt, .list tags, n, p] => do
+    let id ← id.nat?
+    if id ≥ 2 ^ 64 then none
+    let opt : V ← match opt with
+      | .atom "none" => some V.null
+      | o => do
+        let i ← o.int?
+        if -(2 ^ 63) ≤ i ∧ i < 2 ^ 63 then some (V.some (.int i)) else none
+    let p ← p.int?
+    if ¬ (-(2 ^ 7) ≤ p ∧ p < 2 ^ 7) then none
+    let tags ← tags.mapM fun t => t.str?.map V.text
+    pure (.record [("id", .int id), ("name", .text (← nm.str?)), ("opt", opt), ("tags", .seq tags),
+      ("nested", .nvar "Newtype" (.int (← i32? n))), ("pair", .tuple [.int p, .f64 0x3FF8000000000000 "1.5" "1.5"])])
+  | "newtype", [n] => do
+    let n ← n.nat?
+    if n < 2 ^ 16 then some (.some (.int n)) else none
+  | "unit-struct", [] => some (.uvar "FxUnit")
+  | "strmap", kvs => (kvs.mapM fun (kv : Sexp) => match kv with
+      | Sexp.list [k, n] => do
+        let n ← n.int?
+        if -(2 ^ 63) ≤ n ∧ n < 2 ^ 63 then pure (V.text (← k.str?), V.int n) else none
+      | _ => none).map V.map
+  | "intmap", kvs => (kvs.mapM fun (kv : Sexp) => match kv with
+      | Sexp.list [k, s] => do pure (V.int (← i32? k), V.text (← s.str?))
+      | _ => none).map V.map
+  | "optvec", xs => (xs.mapM fun (x : Sexp) => match x with
+      | Sexp.atom "none" => some V.null
+      | b => b.bool?.map fun b => V.some (.bool b)).map V.seq
+  | _, _ => none
+
+/-- the entries of a `BTreeMap` fixture are listed in the map's own order -/
+def sortedStrict (ks : List String) : Bool :=
+  match ks with
+  | a :: b :: rest => decide (a < b) && sortedStrict (b :: rest)
+  | _ => true
+
 def level? : Sexp → Option Level
   | .atom "debug" => some .debug
   | .atom "info" => some .info
@@ -112,6 +161,11 @@ def val? : Sexp → Option PV
   | .list [.atom "kind", .atom "span"] => some (.simple (.kind .span))
   | .list [.atom "kind", .atom "metric"] => some (.simple (.kind .metric))
   | .list [.atom "sv", t, disp] => do pure (.tree (← tree? t) (← disp.str?))
+  | .list (.atom "fx" :: .atom via :: .atom name :: rest) => do
+    if via != "sval" && via != "serde" then none
+    let disp ← rest.getLast?
+    let v ← fixture? name rest.dropLast
+    pure (.tree v (← disp.str?))
   | .list [.atom "arr-i64", .list xs, disp] => do
     if xs.length > 6 then none
     let is ← xs.mapM fun x => do
